@@ -9,11 +9,10 @@
    the universe enclosing its owner; and one worked universe on which the
    recursive model, run against the universe through the wire codec, returns
    exactly [auth_answer] (evaluated inside Coq).
-   Not yet proved (follow-up): referral_progress on the model side (every
-   delegation the resolver accepts has strictly more labels than the one in use;
-   the ingredient is in Resolver/ValidateProofs.v), answer_provenance, and
-   C07_correct_partial (consistent u -> roots_configured u zones -> the model's
-   result is auth_answer u q, first for glue-complete universes).  Until then the
+   FOLLOW-UP (second half of this file): referral_progress on the model side and
+   answer_provenance are proved.  NOT proved: C07_correct_partial (consistent u ->
+   roots_configured u zones -> the model's result is auth_answer u q); its statement
+   and what is missing are in a comment at the end.  That clause of the
    property is covered by the differential stream and the oracle of vlib/p_c07.py
    (implementation result = extracted auth_answer on every generated consistent
    universe; the model agrees with the implementation on every exchange). *)
@@ -108,3 +107,91 @@ Proof.
   - destruct H as [H|[]]. subst r. vm_compute. split; reflexivity.
   - destruct H.
 Qed.
+
+(* ====================================================================== *)
+(* FOLLOW-UP: referral progress and provenance on the MODEL                 *)
+(* (lemmas: Resolver/RecursiveProofs.v)                                     *)
+(* ====================================================================== *)
+From RV Require Import Resolver.ValidateModel Resolver.ValidateSpec Resolver.RecursiveProofs Resolver.ForwardingProofs.
+
+(* referral_progress.  The only way the candidate loop of resolve_recursive_notimeout changes the
+   delegation in use: a candidate's address was found, the server's reply passed the gate and the
+   filter, and the filter made a Delegation of it.  Then the loop continues with exactly that
+   delegation (its hosts in the order of [sort_names], fast pass first), and the delegation is
+   strictly deeper than the one in use (match count strictly greater), encloses the question name --
+   so its match count is at most the number of labels of the question name: at most that many
+   referrals are followed per question -- and names at least one host.  Every oracle. *)
+Theorem C07_referral_progress :
+  forall (cache : Type) (cache_get : cache -> dname -> N -> list rr) (cache_insert_all : cache -> list rr -> cache)
+         (sort_names : list dname -> list dname) (zs : zones) (o : oracle) (pmode : protocol_mode) (port : N)
+         (rec : list question -> question -> RM cache rres) (loop : N -> list dname -> list dname -> bool -> RM cache rres)
+         stack q combined mc cands next locally st candidate rest a st1 nr st2 d st3,
+  pop_last cands = Some (candidate, rest) ->
+  resolve_hostname_to_ip cache cache_get zs pmode rec stack locally candidate st = (Val (Some a), st1) ->
+  query_and_validate cache o (a, port) q mc st1 = (Val (Some nr), st2) ->
+  resolve_with_nameserver_response cache cache_insert_all rec stack combined nr q st2 = (Val (inr d), st3) ->
+  candidate_step cache cache_get cache_insert_all sort_names zs o pmode port rec loop stack q combined mc cands next locally st
+  = loop (ns_match_count d) (sort_names (ns_hostnames d)) [] true st3
+  /\ mc < ns_match_count d
+  /\ is_subdomain_of (q_name q) (ns_name d) = true
+  /\ ns_match_count d <= llen (labels (q_name q))
+  /\ ns_hostnames d <> [].
+Proof. exact referral_progress. Qed.
+Print Assumptions C07_referral_progress.
+
+(* ... and when a candidate's address cannot be found the delegation in use stays the same *)
+Theorem C07_no_referral_same_delegation :
+  forall (cache : Type) (cache_get : cache -> dname -> N -> list rr) (cache_insert_all : cache -> list rr -> cache)
+         (sort_names : list dname -> list dname) (zs : zones) (o : oracle) (pmode : protocol_mode) (port : N)
+         (rec : list question -> question -> RM cache rres) (loop : N -> list dname -> list dname -> bool -> RM cache rres)
+         stack q combined mc cands next locally st candidate rest st1,
+  pop_last cands = Some (candidate, rest) ->
+  resolve_hostname_to_ip cache cache_get zs pmode rec stack locally candidate st = (Val None, st1) ->
+  exists cands' next' locally',
+    candidate_step cache cache_get cache_insert_all sort_names zs o pmode port rec loop stack q combined mc cands next locally st
+    = loop mc cands' next' locally' st1.
+Proof. exact no_referral_same_delegation. Qed.
+Print Assumptions C07_no_referral_same_delegation.
+
+(* answer_provenance (shared with C08, where the statement is spelt out): every record the
+   recursive resolver returns agrees in owner, type and data with local data, with what the cache
+   held before, or with a record of a reply the oracle sent during the resolution that passed the
+   gate and that the filter's specification allows *)
+Theorem C07_answer_provenance :
+  forall (cache : Type) (cache_get : cache -> dname -> N -> list rr) (cache_insert_all : cache -> list rr -> cache)
+         (sort_names : list dname -> list dname) (zs : zones) (o : oracle) (pmode : protocol_mode) (port : N)
+         (cache_content : cache -> rr -> Prop),
+  (forall c n t r, In r (cache_get c n t) -> exists r', cache_content c r' /\ rr_sim r r') ->
+  (forall c rrs r, cache_content (cache_insert_all c rrs) r -> cache_content c r \/ exists r', In r' rrs /\ rr_sim r r') ->
+  forall fuel q st res st',
+  resolve_recursive cache cache_get cache_insert_all sort_names zs o pmode port fuel q st = (Ok res, st') ->
+  forall r, In r (resolved_rrs res ++ opt_list (resolved_soa_rr res)) ->
+  exists r0, rr_sim r r0 /\
+    (zone_src zs r0 \/ cache_content (fst st) r0 \/ upstream_src o (ts_rlog (snd st')) r0).
+Proof. exact recursive_provenance. Qed.
+Print Assumptions C07_answer_provenance.
+
+(* C07_correct_partial -- NOT PROVED.  Target statement:
+
+     forall u zones q, consistentb u = true -> glue_complete u -> in_bailiwick u -> roots_configured u zones ->
+       wf_universe u (names well formed, RRsets with one TTL, messages encodable in 512 octets) ->
+       exists F, forall fuel, F <= fuel ->
+         fst (resolve_simple (ModeRecursive pmode) port zones (universe_oracle u []) fuel q (sc_empty, tstate_init))
+         = Ok (NonAuthoritative (aa_rrs (auth_answer u q)) (aa_soa (auth_answer u q)))
+       (when aa_defined (auth_answer u q) and every zone has a nameserver address the mode can use)
+
+   by induction on the depth of the zone owning the name.  What exists: the step facts the induction
+   needs on the model side (C07_referral_progress: each referral is followed and is deeper;
+   C07_answer_provenance; C08_recursive_terminates: F exists) and on the specification side
+   (C07_referral_strictly_deeper, C07_auth_answer_from_universe), the worked two-level universe
+   evaluated inside Coq (C07_example_two_level: root -> com., alias inside com.), and the
+   differential stream, which compares the implementation with the extracted auth_answer on every
+   generated consistent universe (vlib/p_c07.py) and the model with the implementation on every
+   exchange.  What is missing for the proof, even for depth 1 (root -> one child zone): the round
+   trip of [serve]'s messages through the wire codec as a lemma usable under the oracle
+   (encode/decode of reply_message with compression, C04_roundtrip needs wf_message of every
+   served message, i.e. a well-formedness predicate on universes), the glue shortcut F11 (a
+   nameserver-address question answered from the first glue record) as a hypothesis on u, and the
+   lemma that validate_nameserver_response maps [referral z c] to NRDelegation with
+   ns_name = c, ns_hostnames = the NS targets, and [serve]'s answer to NRAnswer (auth_answer)
+   -- the filter's completeness, of which C06 proves soundness only. *)
